@@ -186,6 +186,11 @@ def byte_string(rng, n, p):
                            p * ((1 << 512) // p), p * ((1 << 512) // p) - 1, r - 1, r - 2])
         v = base % (1 << (8 * n))
         return 'boundary', v.to_bytes(n, 'big')
+    if c < 0.68 and n >= 32:
+        # ties with the modulus on its most significant limb(s): only the lower limbs decide `< p`
+        k = rng.choice([192, 192, 128, 64])
+        v = ((p >> k) << k) | rng.getrandbits(k)
+        return 'toplimb-tie', v.to_bytes(32, 'big').rjust(n, b'\x00')
     return 'uniform', bytes(rng.randrange(256) for _ in range(n))
 
 
@@ -642,7 +647,19 @@ def gen_C08(rng, n, exhaustive_prefix=True):
                 bs2 = bs[:off + 32*i] + (v + q).to_bytes(32, 'big') + bs[off + 32*i + 32:]
                 out.append((f'{g}.from_{fmt}:coord+q', f'{g}.from_{fmt} {hb(bs2)}'))
                 continue
-        if c < 0.35 and fmt == 'compressed':
+        if 0.25 <= c < 0.33:
+            # a coordinate that ties with q on the most significant 64-bit limb: only the lower limbs decide `< q`
+            # (a comparison that weighs the limbs in the wrong order goes wrong exactly here)
+            off = 1 if fmt != 'slice' else 0
+            ncoord = (len(bs) - off) // 32
+            i = rng.randrange(ncoord)
+            v = ((q >> 192) << 192) | rng.getrandbits(192)
+            if rng.random() < 0.3:
+                v = ((q >> 128) << 128) | rng.getrandbits(128)     # tie on the two top limbs
+            bs2 = bs[:off + 32*i] + v.to_bytes(32, 'big') + bs[off + 32*i + 32:]
+            out.append((f'{g}.from_{fmt}:coord-toplimb-tie:{"<q" if v < q else ">=q"}', f'{g}.from_{fmt} {hb(bs2)}'))
+            continue
+        if c < 0.43 and fmt == 'compressed':
             # an x with no point on the curve
             while True:
                 x = K.rand(rng)
